@@ -396,6 +396,20 @@ func c20Transparency(c C20Case, cx *h.Ctx) *h.Failure {
 	if apienum.Repr(reflect.ValueOf(g.Envelope())) != apienum.Repr(reflect.ValueOf(gp.Envelope())) {
 		return diff("Envelope", g.Envelope(), gp.Envelope())
 	}
+	// the envelope as carried by the TWKB bounding-box header
+	if t1, e1 := geom.MarshalTWKB(g, 0, geom.TWKBBoundingBoxHeader()); e1 == nil {
+		t2, e2 := geom.MarshalTWKB(gp, 0, geom.TWKBBoundingBoxHeader())
+		if e2 != nil {
+			// the format cannot express an empty Point inside a non-empty MultiPoint: refusing is the contract (C07)
+			cx.Count("twkb_refused_g_plus", 1)
+			t2 = t1
+		}
+		b1, _, x1 := geom.UnmarshalTWKBEnvelope(t1)
+		b2, _, x2 := geom.UnmarshalTWKBEnvelope(t2)
+		if (x1 == nil) != (x2 == nil) || fmt.Sprint(b1) != fmt.Sprint(b2) {
+			return diff("TWKB bounding-box header", fmt.Sprint(b1, x1), fmt.Sprint(b2, x2))
+		}
+	}
 	if h1, h2 := g.ConvexHull(), gp.ConvexHull(); !(h1.IsEmpty() && h2.IsEmpty()) && !geom.ExactEquals(h1, h2) {
 		return diff("ConvexHull", g.ConvexHull().AsText(), gp.ConvexHull().AsText())
 	}
